@@ -125,10 +125,7 @@ EXCLUDED = "K"            # deliberately not evaluated (resource bound of the wa
 QUICK3 = "i0,i7,imax,fnan,true,empty,sabc,sregexbad,amixed,mopts,func1,absent"
 
 # stable witness classes of the genuine defects (function family, outcome) -> class
-FAMILIES = [
-    (("concat", "append", "fmtnum", "fmtifnum"), "I", "bif-internal-error-absent-or-funct-into-collection"),
-    (("kurtosis", "meaneb", "skewness", "stddev", "variance"), "I", "bif-internal-error-stats-non-numeric-element"),
-]
+FAMILIES = []   # (function names, outcome codes, class): none left -- the two BIF finding families were repaired (180145cf9, a9c3aa6fe)
 
 
 def bif_class(name, code):
@@ -202,10 +199,12 @@ def dsl_call(name, args):
 
 
 def run_cli(ctx, args, stdin=b"", timeout=25, max_out=20_000_000):
-    """vlib.mlr_run; a wall-clock timeout counts as a hang only when it repeats with twice the time (the host may be loaded)"""
+    """vlib.mlr_run; a wall-clock timeout counts as a hang only when it repeats with twice the time, at least 120 s (the host may be loaded)"""
     st, out, err = mlr_run(ctx, args, stdin, timeout=timeout, max_out=max_out, env=SAFE_ENV, cwd=SANDBOX["dir"])
     if st == "hang":
-        st, out, err = mlr_run(ctx, args, stdin, timeout=2 * timeout, max_out=max_out, env=SAFE_ENV, cwd=SANDBOX["dir"])
+        # on a heavily loaded host (load average > 100 was seen) a process START can take longer than the first cap: only a run that is
+        # still going after a long second cap counts as a hang
+        st, out, err = mlr_run(ctx, args, stdin, timeout=max(2 * timeout, 120), max_out=max_out, env=SAFE_ENV, cwd=SANDBOX["dir"])
     return st, out, err
 
 
@@ -600,6 +599,18 @@ def mutate(rng, doc, fsep=None):
     return "no-final-newline", doc.rstrip(b"\n") if rng.random() < 0.5 else doc + b"\n\n\n"
 
 
+def main_flags_with_argument(ctx):
+    """[[spelling, alternative spellings...]] of the main flags that take an argument, from the binary's own `mlr help flags`"""
+    st, out, err = run_cli(ctx, ["help", "flags"], b"", timeout=60)
+    res = []
+    for m in re.finditer(rb"(?m)^(-\S+(?: or -\S+)*) \{[^}\n]*\}", out):
+        names = [n.decode() for n in m.group(1).split(b" or ")]
+        if names not in res:
+            res.append(names)
+    ctx.cov["main_flags_with_argument"] = [n[0] for n in res]
+    return res
+
+
 def reader_cases(ctx):
     rng = ctx.rng
     per = 6 if ctx.tier == "quick" else 120
@@ -639,13 +650,26 @@ def reader_cases(ctx):
             docs = [("valid", s) for s in seeds[:2]] + [("empty", b"")]
             docs += wides if ("dedupe" in oname or "batch" in oname or "hash" in oname or ctx.tier == "thorough") else wides[:2]
             if oname.endswith("-empty"):
-                docs = docs[:1] + wides[:1]        # an empty separator may hang: keep the cost of a confirmed hang small
+                docs = docs[:2] + wides[:1]        # an empty separator may hang: keep the cost of a confirmed hang small
             for _ in range(0 if oname.endswith("-empty") else nmut):
                 kind, m = mutate(rng, rng.choice(seeds + [wides[0][1]]), FMT_SEP.get(fmt))
                 docs.append((kind, m))
             flag = FMT_FLAG.get(fmt, ["--i" + fmt])
             for kind, d in docs:
                 cases.append({"fmt": fmt, "opt": oname, "kind": kind, "args": flag + EXTRA_OPTSETS[oname] + ["--ojson", "cat"], "stdin": d})
+    # third wave: option VALUES.  Every main flag that takes an argument (regenerated from `mlr help flags`: lines `--flag {arg}`) x short / empty /
+    # garbage / negative / huge values (a spec shorter than a prefix the code slices off, a zero modulus, a negative channel size ...)
+    fl = main_flags_with_argument(ctx)
+    FLAG_VALUES = ["", "a", "abc", "-1", "0", "1e9", "x:y", "\xff", ";", "widths:", ",", "9223372036854775808", "left-align-multi-word "]
+    some_fmts = ["csv", "dkvp", "pprint", "xtab", "nidx", "json", "tsv", "markdown"]
+    for names in fl:
+        for f in (names if ctx.tier == "thorough" else names[:1]):
+            for v in FLAG_VALUES:
+                fmts = some_fmts if ctx.tier == "thorough" else [rng.choice(some_fmts)]
+                if ("fixed" in f or f == "--fw") and "pprint" not in fmts:
+                    fmts = fmts + ["pprint"]
+                for fmt in fmts:
+                    cases.append({"fmt": fmt, "opt": "value:" + f, "kind": "flag-value", "args": FMT_FLAG[fmt] + [f, v, "--ojson", "cat"], "stdin": rng.choice(SEEDS[fmt][:2])})
     # the input-format spellings themselves
     for fmt, seeds in SEEDS.items():
         name = {"markdown": "markdown", "recutils": "recutils"}.get(fmt, fmt)
@@ -666,7 +690,7 @@ def reader_part(ctx, exe):
     for i, c in enumerate(cases):
         c["id"] = i
         # one worker per format; the option sets that switch process-global state (type inference) get their own
-        glob = c["opt"] if c["opt"] in ("S", "A", "O", "infer-S+no-dedupe") else "plain"
+        glob = c["opt"] if c["opt"] in ("S", "A", "O", "infer-S+no-dedupe") else ("flag-value" if c["kind"] == "flag-value" else "plain")
         groups.setdefault((c["fmt"], glob), []).append(c)
         ctx.dist("reader:" + c["fmt"]); ctx.dist("reader-mutation:" + c["kind"].split("+")[0])
     with ctx.timed("reader_inproc"):
@@ -791,7 +815,10 @@ def special_inputs(ctx):
             runs.append((fmt, "truncated-gzip", FMT_FLAG[fmt] + ["--ojson", "--gzin", "cat", str(d / "trunc.z")]))
 
         def go(r):
-            st, out, err = run_cli(ctx, r[2], b"", timeout=8, max_out=30_000_000)
+            st, out, err = mlr_run(ctx, r[2], b"", timeout=8, max_out=30_000_000, env=SAFE_ENV, cwd=SANDBOX["dir"])
+            if st == "hang":
+                # a loaded host can take longer than that to start a process: only a run that is still going after a LONG time is a hang
+                st, out, err = mlr_run(ctx, r[2], b"", timeout=120, max_out=30_000_000, env=SAFE_ENV, cwd=SANDBOX["dir"])
             return r, c18_classify(st, err), st, len(out), err
         with ctx.timed("special_inputs"):
             with cf.ThreadPoolExecutor(min(8, NJOBS)) as ex:
@@ -951,6 +978,14 @@ def cr_optsets(fmt):
                 flags = ["--ipprint"] + (["--allow-ragged-csv-input"] if ragged else []) + (["--no-dedupe-field-names"] if not dedupe else [])
                 term = "(RLite (pprint_opts %s %s))" % (_b(dedupe), _b(ragged))
                 out.append(("+".join(n for n, v in (("ragged", ragged), ("no-dedupe", not dedupe)) if v) or "default", flags, term, b" "))
+    elif fmt in ("barred", "markdownc"):
+        for implicit in (False, True):
+            for ragged in (False, True):
+                for dedupe in (True, False):
+                    flags = (["--ipprint", "--barred-input"] if fmt == "barred" else ["--imd"]) + (["--implicit-csv-header"] if implicit else []) + \
+                        (["--allow-ragged-csv-input"] if ragged else []) + (["--no-dedupe-field-names"] if not dedupe else [])
+                    term = "(RBar (mkB %s %s %s %s))" % (_b(fmt != "barred"), _b(implicit), _b(dedupe), _b(ragged))
+                    out.append(("+".join(n for n, v in (("implicit", implicit), ("ragged", ragged), ("no-dedupe", not dedupe)) if v) or "default", flags, term, b" | "))
     elif fmt == "xtab":
         for dedupe in (True, False):
             for ips in (b" ", b":", b": "):
@@ -962,7 +997,7 @@ def cr_optsets(fmt):
 
 def cr_parse_error(fmt, stderr):
     """observed error class as (python tuple, Coq term) or None when the message is not one of the modelled classes"""
-    m = re.search(rb"CSV header/data length mismatch (\d+) != (\d+) at filename \S+ (row|line) (\d+)", stderr)
+    m = re.search(rb"(?:CSV|PPRINT-barred) header/data length mismatch (\d+) != (\d+) at filename \S+ (row|line) (\d+)", stderr)
     if m and (m.group(3) == b"row") == (fmt == "csv"):
         t = (int(m.group(1)), int(m.group(2)), int(m.group(4)))
         return ("err-length-mismatch",) + t, "(Some (EMismatch %d%%N %d%%N %d%%N))" % t
@@ -1015,7 +1050,7 @@ def cr_observe(exe, items):
 
 
 CR_TY = "rdr * bytes * list record * option cerr"
-CR_IMPORTS = "Base.Record C01.Model C18.ModelReaders C18.Harness"
+CR_IMPORTS = "Base.Record C01.Model C18.ModelReaders C18.ModelBar C18.Harness"
 
 
 def cr_shrink(ctx, exe, fmt, flags, term, doc, rounds=3):
@@ -1044,7 +1079,8 @@ def cr_shrink(ctx, exe, fmt, flags, term, doc, rounds=3):
 def classified_reader_correspondence(ctx, exe):
     rng = ctx.rng
     n = 110 if ctx.tier == "quick" else 2500
-    alpha = {"csv": b'ab,"\n\r1 ;', "csvlite": b'ab,;\n\r1 "', "pprint": b"ab -\n\r1|", "xtab": b"ab :\n\r1"}
+    alpha = {"csv": b'ab,"\n\r1 ;', "csvlite": b'ab,;\n\r1 "', "pprint": b"ab -\n\r1|", "xtab": b"ab :\n\r1",
+             "barred": b"ab|+- \n\n\r1\t", "markdownc": b"ab||-: \\\n\n\r1\t"}
     extra = {
         "csv": [b'a,b\n1,x"y\n3,4\n', b'a,b\n1,"x"y\n3,4\n', b'a,b\n1,"xy\n3,4\n', b'a,b\n1,2,x"y\n3,4\n', b'a,b\nx"y,2\n', b'a,b\n"x"y,2\n', b'a,b\n"xy', b'a,b\n1,2\n\n',
                 b'a,b\n1,2\n\r', b"\r", b"a,b\r\n1,2\r\n", b"a,b\r1,2\r", b'a,b\n"1\r\n2",3\n', b'a,b\n1,2\r', b'"a",\n1,2\n', b'a,a\n1,2\n', b'a,a,a_2\n1,2,3\n',
@@ -1055,26 +1091,38 @@ def classified_reader_correspondence(ctx, exe):
         "pprint": [b"a b\n1 -\n", b"a   b\n- -\n\nc\n-\n", b"a b\n1\n", b"a b\n1 2 3\n", b"  a  b  \n 1 2\n", b" \n", b"a\n \n", b"a a\n1 2\n", b"a - b\n1 2 3\n"],
         "xtab": [b"a 1\nb 2\n", b"a    1\n\n\nb\n", b"a\n", b" a 1\n", b"  \n", b"a 1\na 2\na_2 3\n", b"a:1\nb::2\n", b"a: 1\nb:  : 2\n", b"\n\na 1", b"a 1\r\nb 2\r\n\r\nc 3\r\n"],
     }
+    extra["barred"] = [b"+---+---+\n| a | b |\n+---+---+\n| 1 | 2 |\n+---+---+\n", b"| a | b |\n| 1 |\n", b"| a | b |\n| 1 | 2 | 3 |\n", b"no bars\n| a |\n| 1 |\n",
+                       b"|\n|\n", b"||\n||\n| |\n", b"+\n++\n+-+\n| a |\n+-x+\n", b"| a | a |\n| 1 | 2 |\n\n| c |\n| 3 |\n| 4 | 5 |\n", b"x| a |y\n z| 1 |w\n",
+                       b"| a | b |\r\n| 1 | 2 |\r\n", b"|  a\t|\tb  |\n|\t1 | 2\t|\n", b"| a | b |\n+---+\n|1|2|\n\n\n|x|\n", b"a|b\n1|2\n", b"| a |\n\n| b |\n| 1 |\n| 2 | 3 |\n"]
+    extra["markdownc"] = [b"| a | b |\n| --- | --- |\n| 1 | 2 |\n", b"| a | b |\n| ---: | :--- |\n| 1 | 2 |\n", b"| a | b |\n| --- | --- |\n| --- | --- |\n| - | |\n",
+                          b"| a | b |\n| 1 | 2 |\n| --- | --- |\n", b"| a |\n| --- |\n| x\\|y |\n| \\\\|z |\n", b"| a | b |\n| --- | --- |\n| 1 |\n", b"| a |\n| --- |\n| 1 | 2 |\n",
+                          b"|\n|\n|\n", b"|||\n| - |\n", b"| a |\n| --- |\n| 1 |\n\n| b | c |\n| --- | --- |\n| 2 | 3 |\n| 4 |\n", b"\\|\n\\|\n", b"| a\\| |\n|---|\n| 1 |\n",
+                          b"no bars\n| --- |\n| a |\n| 1 |\n", b"| a | a |\n| --- | --- |\n| 1 | 2 |\n", b"| a |\r\n| --- |\r\n| 1 |\r\n", b"| : |\n| : |\n| : |\n", b"|a|b|\n|-|-|\n|1|2|\n"]
+    seeds_of = dict(SEEDS, barred=[SEEDS["pprint"][1], b"+---+---+\n| a | b |\n+---+---+\n| 1 | 2 |\n| 3 | 4 |\n+---+---+\n\n+---+\n| c |\n+---+\n| 5 |\n+---+\n"],
+                    markdownc=SEEDS["markdown"] + [b"| a | b | c |\n| --- | ---: | :--- |\n| x\\|y | - | |\n| 3 | 4 | 5 |\n"])
+    sep_of = dict(FMT_SEP, barred=b" | ", markdownc=b" | ")
+    UNISPACE = (b"\xc2\x85", b"\xc2\xa0", b"\xe1\x9a\x80", b"\xe2\x80", b"\xe2\x81\x9f", b"\xe3\x80\x80")
     items, meta = [], []
-    for fmt in ("csv", "csvlite", "pprint", "xtab"):
+    for fmt in ("csv", "csvlite", "pprint", "xtab", "barred", "markdownc"):
         osets = cr_optsets(fmt)
-        docs = list(SEEDS[fmt]) + extra[fmt] + [b"", b"\n", b"\r\n", b"a", b"\n\n"]
-        for s in SEEDS[fmt][:3]:
+        SEEDS_f = seeds_of[fmt]
+        docs = list(SEEDS_f) + extra[fmt] + [b"", b"\n", b"\r\n", b"a", b"\n\n"]
+        for s in SEEDS_f[:3]:
             docs += [s[:i] for i in range(1, len(s), 1 if ctx.tier == "thorough" else 2)]
         for _ in range(n):
             if rng.random() < 0.5:
                 docs.append(bytes(rng.choice(alpha[fmt]) for _ in range(rng.randint(0, 18))))
             else:
-                docs.append(mutate(rng, rng.choice(SEEDS[fmt] + extra[fmt]), FMT_SEP[fmt])[1][:300])
+                docs.append(mutate(rng, rng.choice(SEEDS_f + extra[fmt]), sep_of[fmt])[1][:300])
         seen = set()
         for j, d in enumerate(docs):
-            if b"\x00" in d:
+            if b"\x00" in d or (fmt in ("barred", "markdownc") and any(u in d for u in UNISPACE)):
                 continue
             # the hand-written documents meet every option set, the generated ones a random one
-            for (oname, flags, term, sep) in (osets if d in extra[fmt] and ctx.tier == "thorough" else [osets[0], rng.choice(osets)] if j < len(SEEDS[fmt]) + len(extra[fmt]) else [rng.choice(osets)]):
+            for (oname, flags, term, sep) in (osets if d in extra[fmt] and ctx.tier == "thorough" else [osets[0], rng.choice(osets)] if j < len(SEEDS_f) + len(extra[fmt]) else [rng.choice(osets)]):
                 dd = d
                 if sep not in (b",", b" ") and rng.random() < 0.7:
-                    dd = d.replace(FMT_SEP[fmt], sep)      # make the alternative separator occur
+                    dd = d.replace(sep_of[fmt], sep)      # make the alternative separator occur
                 if (oname, dd) in seen:
                     continue
                 seen.add((oname, dd))
@@ -1098,7 +1146,7 @@ def classified_reader_correspondence(ctx, exe):
     with ctx.timed("coq_cases_classified"):
         bad, cerr = coq_eval_mismatches(ctx, "C18_cr", CR_IMPORTS, CR_TY, "chk2", terms)
     ctx.cov["classified_reader_correspondence"] = {"cases": len(terms), "mismatches": len(bad), "per_format_and_outcome": tally,
-                                                   "option_sets": {f: len(cr_optsets(f)) for f in ("csv", "csvlite", "pprint", "xtab")},
+                                                   "option_sets": {f: len(cr_optsets(f)) for f in ("csv", "csvlite", "pprint", "xtab", "barred", "markdownc")},
                                                    "unrecognised_error_messages": len(unrec)}
     if cerr:
         ctx.violation({"broken": "correspondence-evaluation (classified readers)", "detail": cerr[-2000:]}, found_input=False)
@@ -1133,6 +1181,109 @@ def classified_reader_correspondence(ctx, exe):
 
 
 # ---------------------------------------------------------------------------------------------------------------
+# JSON record-reader layer (coq/C18/ModelJson.v): documents generated FROM abstract streams of top-level values
+# ---------------------------------------------------------------------------------------------------------------
+JKIND = {"int": 1, "float": 2, "bool": 3, "boolean": 3, "string": 4, "empty": 5, "null": 6, "array": 7, "map": 8}
+JSCALARS = [(1, b"17"), (1, b"-3"), (2, b"1.5"), (2, b"-2.5e3"), (3, b"true"), (3, b"false"), (4, b'"s"'), (4, b'"\\u00e9 x"'), (5, b'""'), (6, b"null")]
+JGARBAGE = [b"}", b"]", b'{"a"', b'{"a":}', b"nul", b"@", b"{]", b'[{"id":1},]', b'{"id":1,}', b"{'id':1}", b",", b'{"a" 1}', b"[1 2]", b'"abc', b"tru", b'{"a":[}']
+
+
+def json_layer_correspondence(ctx, exe):
+    rng = ctx.rng
+    n = 220 if ctx.tier == "quick" else 4000
+    streams = []
+    nid = [0]
+
+    def obj():
+        nid[0] += 1
+        extra = rng.choice([b"", b',"v":[1,{"w":null}]', b',"s":"x y"', b',"m":{"id":999}', b',"e":""'])
+        return nid[0], b'{"id":%d%s}' % (nid[0], extra)
+
+    def top():
+        k = rng.randrange(10)
+        if k < 4:
+            i, t = obj()
+            return "(TMap %d)" % i, t, False
+        if k < 6:
+            es = [obj() for _ in range(rng.randint(0, 3))]
+            return "(TArr [%s])" % "; ".join("EMap %d" % i for i, _ in es), b"[" + b",".join(t for _, t in es) + b"]", False
+        if k < 8:
+            es, txt = [], []
+            for _ in range(rng.randint(1, 4)):
+                if rng.random() < 0.5:
+                    i, t = obj(); es.append("EMap %d" % i); txt.append(t)
+                else:
+                    kind, t = rng.choice(JSCALARS + [(7, b"[1]"), (7, b"[]"), (7, b'[{"id":5}]')])
+                    es.append("EOther %d" % kind); txt.append(t)
+            return "(TArr [%s])" % "; ".join(es), b"[" + rng.choice([b",", b" , ", b",\n"]).join(txt) + b"]", False
+        if k < 9:
+            kind, t = rng.choice(JSCALARS)
+            return "(TScalar %d)" % kind, t, True
+        return "TDecodeErr", rng.choice(JGARBAGE), True
+    fixed = [[], [("(TArr [])", b"[]", False)] * 2]
+    for _ in range(n):
+        vs, stop = [], False
+        for _ in range(rng.randint(0, 5)):
+            term, txt, last = top()
+            vs.append((term, txt, last))
+            if term == "TDecodeErr":
+                break
+        streams.append(vs)
+    streams = fixed + streams
+    reqs, docs = [], []
+    for i, vs in enumerate(streams):
+        doc = b""
+        for term, txt, need_ws in vs:
+            doc += txt + (rng.choice([b" ", b"\n", b"\n\n", b"\t"]) if need_ws else rng.choice([b"", b" ", b"\n", b"\r\n"]))
+        docs.append(doc)
+        reqs.append({"id": i, "args": ["--ijson", "--ojsonl", "cat"], "stdin": doc})
+    with ctx.timed("json_layer_inproc"):
+        res = inproc_many(exe, [reqs[k::NJOBS] for k in range(NJOBS)])
+    terms, tmeta, tally = [], [], {}
+    for i, vs in enumerate(streams):
+        o = res.get(i)
+        if not o or o["class"] not in ("ok", "exit") or o["out_len"] > 2000:
+            continue
+        if o["class"] == "ok":
+            ids = [int(m) for m in re.findall(rb'(?m)^\{"id": (\d+)', o["out"])]
+            if len(ids) != o["out"].count(b"\n"):
+                continue
+            obs, cls = "None", "ok"
+        else:
+            m = re.search(rb"valid but unmillerable JSON. Expected map \(JSON object\); got (\w+)", o["stderr"])
+            if m:
+                kind = JKIND.get(m.group(1).decode(), 99)
+                obs, cls = "(Some (Some %d%%N))" % kind, "err-unmillerable"
+            elif b"mlr" in o["stderr"] and b"nternal coding error" not in o["stderr"]:
+                obs, cls = "(Some None)", "err-decode"
+            else:
+                continue
+            ids = []
+        terms.append("([%s], [%s], %s)" % ("; ".join(t for t, _, _ in vs), "; ".join("%d%%N" % x for x in ids), obs))
+        tmeta.append((docs[i], vs, cls))
+        tally[cls] = tally.get(cls, 0) + 1
+        ctx.count(("json-layer", docs[i])); ctx.dist("json-layer:" + cls)
+    with ctx.timed("coq_cases_json_layer"):
+        bad, cerr = coq_eval_mismatches(ctx, "C18_json", "C18.ModelJson C18.Harness", "list jtop * list N * option (option N)", "chkj", terms)
+    ctx.cov["json_layer_correspondence"] = {"cases": len(terms), "mismatches": len(bad), "per_outcome": tally}
+    if cerr:
+        ctx.violation({"broken": "correspondence-evaluation (JSON layer)", "detail": cerr[-2000:]}, found_input=False)
+        return
+    for i in [j for j in bad if j >= 0][:3]:
+        doc, vs, cls = tmeta[i]
+        st, out, e2 = run_cli(ctx, ["--ijson", "--ojsonl", "cat"], doc, timeout=25)
+        k = c18_classify(st, e2)
+        if k not in ("ok", "mlr_error"):
+            ctx.violation({"class": reader_class({"fmt": "json"}, k, e2), "part": "reader", "args": ["--ijson", "--ojsonl", "cat"], "stdin_hex": doc.hex(),
+                           "input": "mlr --ijson --ojsonl cat < stdin", "observed": "%s exit=%s %s" % (k, st, e2.decode("utf-8", "replace")[:400]),
+                           "expected": "records or an `mlr:` error with non-zero exit"})
+        else:
+            ctx.violation({"broken": "correspondence C18.Harness.chkj (JSON record-reader layer model vs implementation)", "class": "reader-model-disagreement-json-layer", "part": "reader-model",
+                           "stdin": doc.decode("latin1"), "stdin_hex": doc.hex(), "abstract_stream": [t for t, _, _ in vs], "observed_class": cls,
+                           "observed": "exit=%s %s %s" % (st, out[:200].decode("latin1"), e2[:200].decode("latin1"))}, found_input=False)
+
+
+# ---------------------------------------------------------------------------------------------------------------
 # part 3: DSL text mutations
 # ---------------------------------------------------------------------------------------------------------------
 TOKEN_RE = re.compile(r'"(?:[^"\\]|\\.)*"|[A-Za-z_$@][A-Za-z_0-9]*|\d+\.?\d*(?:[eE][-+]?\d+)?|0x[0-9a-fA-F]+|\*\*=?|//=?|\.\+|\.\*|\./|\.-|<<=?|>>>?=?|&&=?|\|\|=?|\^\^=?|\?\?\??=?|=~|!=~|[<>!=]=|<=>|[-+*/%.&|^]=|\S')
@@ -1145,6 +1296,33 @@ DSL_NASTY = ["(", ")", "{", "}", "[", "]", ";", ",", "=", "==", "$*", "$", "@", 
              "percentile([1,2],101)", "percentiles([],[50])", "sort_by_key({})", "latin1_to_utf8(\"\\xff\")", "strlen(\"\\xff\")", "toupper(\"\\xff\")", "format(\"{}\")", "leafcount(1)",
              "json_decode(\"{\")", "json_decode(\"[[[[[[\")", "json_encode({}, 1, 2)", "asserting_null(1)", "splitnv(\"a,b\",\"\")", "ssub(\"\",\"\",\"\")", "index(\"\",\"\")", "strrev(\"\\xff\\xfe\")",
              "truncate(\"ab\",-1)", "format_values(1)", "exec(\"/nonexistent\",[])", "os_type()", "bitcount(-1)", "msub(1,2,0)", "roundm(7,0)", "1 .+ 9223372036854775807", "5 .* 4611686018427387904"]
+
+
+# boundary VALUES (beyond the kind representatives of the BIF matrix) for functions with size / count / time / format arguments
+DSL_NASTY += [
+    'format("{}:{}", 1)', 'format("{}", 1, 2, 3, 4, 5)', 'format("", [])', 'unformat("{}h{}m{}s", "5h6m")', 'unformat("{}h{}m{}s", "")', 'unformat("", "abc")', 'unformat("{}{}", "12")',
+    'unformatx("<>{};{}", "<>3;")', 'sec2date(-1e300)', 'sec2gmt(1e300, 9)', 'sec2gmt(9223372036854775807)', 'sec2gmtdate(-9223372036854775808)', 'sec2dhms(9223372036854775807)',
+    'sec2hms(-9223372036854775808)', 'fsec2hms(1e300)', 'fsec2dhms(-1e300)', 'fsec2hms(-0.0000001)', 'dhms2sec("1d2h3m4sxyz")', 'dhms2sec("")', 'dhms2sec("-")', 'dhms2fsec("1d-2h")',
+    'hms2sec("99999999999999999999:00:00")', 'hms2sec(":::")', 'hms2fsec("-00:00:00.")', 'gmt2sec("9999999999-01-01")', 'gmt2sec("")', 'gmt2sec("0000-00-00")', 'gmt2sec("1970-01-01T00:00:00Zjunk")',
+    'localtime2sec("2023-01-01 00:00:00", "Nowhere/Land")', 'strftime_local(0, "%Y", "")', 'strftime(0, "%")', 'strftime(0, "%%%")', 'strftime(1e300, "%Y-%m-%d %H:%M:%9S")',
+    'strfntime(9223372036854775807, "%Y-%m-%d %H:%M:%9S")', 'strfntime(-9223372036854775808, "%Y")', 'strfntime_local(1, "%Q%q%1%2", "Asia/Tokyo")', 'strptime("", "")',
+    'strptime("1970-01-01T00:00:00Z", "%Y-%m-%dT%H:%M:%SZ%Z%z%%")', 'strptime("12", "%")', 'strptime("12", "%%%")', 'strptime("99999999999999999999", "%s")', 'strptime("1.5e300", "%s")',
+    'strpntime("2023-01-01", "%Y-%m-%d%j%U%e")', 'substr("abc", -9223372036854775808, 9223372036854775807)', 'substr0("abc", 9223372036854775807, -9223372036854775808)',
+    '"abc"[9223372036854775807:9223372036854775807]', '[1,2,3][-9223372036854775808:9223372036854775807]', '[1,2,3][9223372036854775807]', '1 << 9223372036854775807', '1 >> -9223372036854775808',
+    '1 >>> -1', '-1 >>> 64', '1 << 63 << 1', 'leftpad("x", 100000, "ab")', 'rightpad(5, -9223372036854775808, "0")', 'truncate("ab", 9223372036854775807)', 'truncate("ab", -9223372036854775808)',
+    'fmtnum(3.1, "%08.9999lf")', 'fmtnum(1, "%d%d")', 'fmtnum(1, "%s")', 'fmtnum(1, "%*d")', 'fmtnum(1, "%9223372036854775807d")', 'fmtnum(-0.0, "%x")', 'fmtifnum("", "%")', 'hexfmt(-9223372036854775808)',
+    'splitnv("", "")', 'splitaxx("a", "")', 'splitax("abc", "")', 'splitnvx("a,b", ",,")', 'ssub("a", "", "b")', 'gsub("abc", "", "-")', 'regextract("abc", "(")', 'regextract_or_else("abc", "[", 1)',
+    '"abc" =~ "(?P<n"', 'sub("abc", "(a)(b)(c)", "\\9\\0\\1")', 'matchx("a","a")', 'strmatchx("abc", "(((((((((((a)))))))))))")', 'any([1], func(a) {return 1})', 'sort([3,1,2], "zzz")', 'sort({"a":1}, func(a,b,c,d){return "x"})',
+    'percentile({}, 50)', 'percentiles([], [])', 'percentiles([1,2], {})', 'percentile([1,2,3], "abc")', 'median(["a", 1, {}])', 'sort_by_key(1)', 'sort_by_value({"a":[1]})', 'kurtosis([1])', 'variance([])',
+    'minlen([])', 'distinct_count(1)', 'mode([])', 'antimode({})', 'null_count(1)', 'sum2(["a"])', 'meaneb([1])', 'skewness([1,1,1])', 'roundm(5, 0)', 'roundm(5.5, 0.0)', 'mexp(2, -1, 5)',
+    'mexp(2, 9223372036854775807, 9223372036854775807)', 'msub(5, 6, -7)', 'mmul(-9223372036854775808, -9223372036854775808, -1)', '2 ** 9223372036854775807', '0 ** -1', '-9223372036854775808 // -1',
+    '-9223372036854775808 % -1', '-9223372036854775808 .+ -1', '7.0 // 0', '7 % 0.0', 'int(1e300)', 'int("0xfffffffffffffffffff")', 'float("1e999")', 'bitcount(1e300)', 'exp(1e300) - exp(1e300)',
+    'invqnorm(2)', 'invqnorm(-1)', 'qnorm(1e308 * 10)', 'urandint(5, 1)', 'urandint(-9223372036854775808, 9223372036854775807)', 'urandrange(1, 1)', 'urandelement([])', 'gssub("", "", "")',
+    'latin1_to_utf8("\xff\xfe")', 'utf8_to_latin1("\xff\xfe\xc3")', 'gsub("\xff", "\xff", "\xfe")', 'format_values', 'strlen(leafcount)', 'json_decode("{\"a\":1}{")', 'json_decode("[1,2")', 'json_decode("\"\\ud800\"")',
+    'json_encode([1,{"a":[]}], 9223372036854775807)', 'json_encode({}, "x")', 'arrayify({"1":{"2":3}})', 'unflatten({"a..b.":1, ".":2, "":3}, ".")', 'unflatten({"a.b":1}, "")', 'flatten({"a":{}}, "")',
+    'get_values(1)', 'mapdiff()', 'mapsum()', 'mapexcept({"a":1}, [[1]])', 'mapselect({"a":1}, {})', 'haskey([1,2], -9223372036854775808)', 'concat()', 'index("abc", "")', 'contains("", "")', 'strfind',
+    'leafcount({})', 'depth([])', 'exec("", [])', 'system("")', 'os_type(1)', 'version(1)', 'hostname() . 1', 'asserting_int(1.5)', 'asserting_error(1)', 'is_nan(absent)', 'typeof(@*)', 'asserting_not_empty("")',
+]
 
 
 def load_dsl_corpus(ctx):
@@ -1197,6 +1375,24 @@ def mutate_dsl(rng, prog):
     return kind, " ".join(toks)
 
 
+def funct_arity_programs():
+    """function values held in local variables / parameters / collections, called with every argument count 0..3 (declared arity 0..3):
+    directly, through a UDF or subr with a funct parameter, after reassignment, from a map element, as an immediately applied literal"""
+    out = []
+    for ar in range(4):
+        ps = ",".join("abc"[:ar])
+        lit = "func(%s){return 1}" % ps
+        for nargs in range(4):
+            call = ",".join("123"[:nargs])
+            out += ["end{f=%s; print f(%s)}" % (lit, call), "f=%s; $y=f(%s)" % (lit, call),
+                    "func g(funct h) { return h(%s) } end{print g(%s)}" % (call, lit), "func g(h) { return h(%s) } $y = g(%s)" % (call, lit),
+                    "func k(%s) {return 2} end{f=k; print f(%s)}" % (ps, call), "func k(%s) {return 2} f=k; $y=f(%s)" % (ps, call),
+                    "subr s(funct h) { print h(%s) } end{var f=%s; call s(f)}" % (call, lit),
+                    "end{funct f=%s; f=func(a){return 2}; print f(%s)}" % (lit, call), "end{m={}; m[1]=%s; print m[1](%s)}" % (lit, call),
+                    "$y = (%s)(%s)" % (lit, call), "f=%s; $z=f(%s) . f(%s)" % (lit, call, call), "f=%s; $z=apply([1,2], f); $w=sort([2,1], f); $v=fold([1,2], f, 0)" % lit]
+    return out
+
+
 def dsl_part(ctx, exe):
     rng = ctx.rng
     corpus = load_dsl_corpus(ctx)
@@ -1210,6 +1406,8 @@ def dsl_part(ctx, exe):
         cases.append(("valid", p))
     for s in DSL_NASTY:
         cases.append(("nasty-expression", "end { print " + s + " }"))
+    for p in funct_arity_programs():
+        cases.append(("funct-value-call-arity", p))
     for _ in range(nmut):
         kind, p = mutate_dsl(rng, rng.choice(corpus))
         if rng.random() < 0.25:
@@ -1375,6 +1573,12 @@ def stress_cases(ctx):
     inp("json-deep-objects", ["--ijson", "--ojsonl", "cat"], b'{"a":' * Q + b"1" + b"}" * Q)
     inp("json-deep-objects-flatten", ["--ijson", "--oxtab", "cat"], b'{"a":' * Q + b"1" + b"}" * Q)
     inp("json-deep-top-level-arrays", ["--ijson", "--ojson", "cat"], b"[" * N + b'{"a":1}' + b"]" * N)
+    # deeper than the Go stack allows (1 GB at about 300 bytes per level = 3.6 * 10^6 levels): a fatal "stack overflow" before the depth bound of 10000
+    inp("json-open-brackets-10^7", ["--ijson", "--ojson", "cat"], b"[" * (10 ** 7 if T else 4 * 10 ** 6))
+    inp("jsonl-open-brackets-deep", ["--ijsonl", "--ojson", "cat"], b"[" * (4 * 10 ** 6) + b"\n")
+    dsl("json-decode-open-brackets-deep", 'end{s="[";for(i=0;i<22;i+=1){s=s.s} print json_decode(s)}')
+    inp("json-depth-10001", ["--ijson", "--ojsonl", "cat"], b'{"a":' + b"[" * 10001 + b"]" * 10001 + b"}")
+    inp("json-depth-9999", ["--ijson", "--ojsonl", "nothing"], b'{"a":' + b"[" * 9998 + b"]" * 9998 + b"}")
     inp("json-close-brackets", ["--ijson", "--ojson", "cat"], b"]" * N)
     inp("json-long-string", ["--ijson", "--ojson", "cat"], b'{"a":"' + b"s" * (100 * N) + b'"}')
     inp("json-long-number", ["--ijson", "--ojson", "cat"], b'{"a":' + b"9" * (10 * N) + b"}")
@@ -1443,6 +1647,237 @@ def stress_part(ctx):
 
 
 # ---------------------------------------------------------------------------------------------------------------
+# part 5: verbs -- argument-list grammar through every verb's ParseCLI, and degenerate record streams
+# ---------------------------------------------------------------------------------------------------------------
+VERB_BIG = "100000"      # "huge" counts stay below what is plain resource use (repeat -n / histogram --nbins allocate that much)
+VERB_GENERIC = [[], ["-n"], ["-n", "-5"], ["-n", VERB_BIG], ["-n", "x"], ["-n", "9223372036854775808"], ["-f", ""], ["-f", "a,,b"], ["-f", "a"], ["-f"], ["-g", "a"],
+                ["--nosuchflag"], ["-"], ["--"], [""], ["-f", "a", "then"], ["then"], ["then", "then"], ["-f", "a", "then", "then", "cat"], ["x", "y", "z"],
+                ["-f", "a", "-n", "1", "-g", "b"], ["-f", "\xff\xfe"], ["-f", "a" * 20000], ["-f", "a", "-f"], ["-n", "1.5"], ["-n", "0"], ["-f", ",", "-g", ","], ["-h"]]
+VERB_GENERIC_QUICK = [0, 1, 2, 3, 4, 7, 9, 11, 14, 15, 17, 18, 25]
+VERB_FLAG_ARGS = [None, "", "a", "-5", VERB_BIG, "a,,b", "0", "x=y", "1e309", "\xff"]
+VERB_FLAG_ARGS_QUICK = [0, 1, 3]
+VERB_DEFAULT_CANDIDATES = [[], ["-f", "a"], ["-n", "1"], ["-f", "a", "-g", "b"], ["-a", "sum", "-f", "a"], ["a", "b"], ["$z=1"], ["true"], ["--ivar", ";", "-f", "a"],
+                           ["-f", "/dev/null", "-j", "a"], ["-i", "a,b", "-o", "k,v"], ["a"], ["-a", "sum", "-f", "a,b", "-o", "ab"], ["-a", "delta", "-f", "a"],
+                           ["-f", "a", "--lo", "0", "--hi", "1"], ["--at-least", "a"], ["--stop", "3"], ["-f", "a", "b", "c"], ["-u", "-f", "a"], ["-n", "2"], ["out.tmp"],
+                           ["-d", "a", "-s", "b"], ["-k", "a", "-v", "b"], ["-a", "cov", "-f", "a,b"], ["-a"], ["-f", "a,b"], ["-x", "a", "-y", "b"], ["-r", "a", "b"]]
+VERB_PREFERRED = {"put": ["$z = $a . 1"], "filter": ["true"], "grep": ["a"], "sub": ["-f", "a", "b", "c"], "gsub": ["-f", "a", "b", "c"], "ssub": ["-f", "a", "b", "c"],
+                  "label": ["x,y"], "sec2gmt": ["a"], "sec2gmtdate": ["a"], "group-by": ["a"], "tee": ["out.tmp"], "repeat": ["-n", "2"], "rename": ["a,b"], "count-similar": ["-g", "a"],
+                  "sample": ["-k", "2"], "stats2": ["-a", "cov", "-f", "a,c"], "split": ["-n", "2"], "seqgen": ["--stop", "3"], "fill-down": ["-a"], "nest": ["--ivar", ";", "-f", "a"]}
+VERB_CODES = {"panic": 80, "hang": 72, "internal": 73, "silent-failure": 85}
+
+
+def verb_flags(usage):
+    out = []
+    for m in re.finditer(r"(?m)^\s{0,3}(-{1,2}[A-Za-z0-9][-A-Za-z0-9_|,]*)", usage):
+        for f in re.split(r"[|,]", m.group(1)):
+            if re.fullmatch(r"-{1,2}[A-Za-z0-9][-A-Za-z0-9_]*", f) and f not in ("-h", "--help") and f not in out:
+                out.append(f)
+    return out
+
+
+def verb_part(ctx, exe):
+    """regenerates coq/gen/Gen_VerbOutcomes.v; returns the list of bad cases (confirmed with the real binary)"""
+    rng = ctx.rng
+    T = ctx.tier == "thorough"
+    st, out, err = run_cli(ctx, ["help", "list-verbs"], b"", timeout=60)
+    verbs = [v for v in out.decode().split() if v]
+    if st != 0 or len(verbs) < 10:
+        ctx.violation({"broken": "mlr help list-verbs", "observed": "%s %s" % (st, err[:200])}, found_input=False)
+        verbs = []
+    rec = b"a=3,b=x,c=0.5\na=1,b=y,c=\na=2,b=x,d=7\n"
+    # usage texts (in-process)
+    ures = inproc_many(exe, [[{"id": i, "args": [v, "--help"], "stdin": b""} for i, v in enumerate(verbs)][k::NJOBS] for k in range(NJOBS)], timeout_ms=8000)
+    # the usage text may be longer than the 2 KB head the in-process driver keeps: flags beyond it come from the binary in the thorough tier
+    flags = {}
+    for i, v in enumerate(verbs):
+        txt = (ures.get(i) or {}).get("out", b"").decode("latin1")
+        if T or not txt:
+            st1, o1, e1 = run_cli(ctx, [v, "--help"], b"", timeout=60)
+            txt = o1.decode("latin1")
+        flags[v] = verb_flags(txt)
+    cases = []
+
+    def add(v, kind, pre, vargs, stdin):
+        chain = [v] + vargs
+        if v in ("seqgen", "repeat", "fill-down", "bootstrap", "sample", "shuffle") and "then" not in vargs:
+            chain = chain + ["then", "head", "-n", "4"]       # generators: a huge but finite count is not a hang
+        cases.append({"id": len(cases), "verb": v, "kind": kind, "args": pre + chain, "stdin": stdin})
+    for v in verbs:
+        gl = VERB_GENERIC if T else [VERB_GENERIC[i] for i in VERB_GENERIC_QUICK]
+        for a in gl:
+            add(v, "generic", [], list(a), rec)
+        fl = flags[v] if T else (flags[v][:1] + rng.sample(flags[v][1:], min(1, len(flags[v][1:]))))
+        fa = VERB_FLAG_ARGS if T else [VERB_FLAG_ARGS[i] for i in VERB_FLAG_ARGS_QUICK]
+        for f in fl:
+            for x in fa:
+                add(v, "flag", [], [f] if x is None else [f, x], rec)
+            if T:
+                add(v, "flag", [], [f, "a", f, "b"], rec)
+                add(v, "flag", [], [f, "a", "then"], rec)
+    ngram = len(cases)
+    groups = [cases[k::NJOBS] for k in range(NJOBS)]
+    with ctx.timed("verb_inproc"):
+        res = inproc_many(exe, [g for g in groups if g], timeout_ms=8000)
+    # default-ish arguments per verb: the first candidate that runs on a plain stream
+    allc = lambda v: ([VERB_PREFERRED[v]] if v in VERB_PREFERRED else []) + VERB_DEFAULT_CANDIDATES
+    defaults, todo = {}, list(verbs)
+    for lo, hi in ((0, 3), (3, 9), (9, 99)):          # most verbs run with no argument or -f a: try the rest only for those which do not
+        cand = []
+        for v in todo:
+            for j, a in list(enumerate(allc(v)))[lo:hi]:
+                chain = [v] + a + (["then", "head", "-n", "4"] if v in ("seqgen", "repeat") else [])
+                cand.append({"id": len(cand), "verb": v, "cand": j, "args": chain, "stdin": rec})
+        cres_ = inproc_many(exe, [g for g in (cand[k::NJOBS] for k in range(NJOBS)) if g], timeout_ms=8000) if cand else {}
+        for c in cand:
+            r = cres_.get(c["id"])
+            if c["verb"] not in defaults and r and inproc_class(r) == "ok":
+                defaults[c["verb"]] = allc(c["verb"])[c["cand"]]
+        todo = [v for v in todo if v not in defaults]
+    nodefault = todo
+    NF = 100000 if T else 3000
+    wide = b",".join(b"k%d=%d" % (i, i) for i in range(NF)) + b"\n"
+    streams = [("no-records", [], b""), ("records-without-fields", ["--ijson"], b"{}\n{}\n[{},{}]"), ("field-named-empty", [], b"=1\n=2\n"),
+               ("many-fields", [], wide), ("repeated-keys-no-dedupe", ["--no-dedupe-field-names"], b"a=1,a=2,b=3,a=4\na=5,a=6\n"),
+               ("only-empty-values", [], b"a=,b=,c=\n"), ("heterogeneous", ["--ijson"], b'{"a":{"x":[1,{"y":2}]},"b":null}\n{"b":[],"c":{}}\n')]
+    for v in verbs:
+        a = defaults.get(v)
+        if a is None:
+            continue
+        for sname, pre, data in streams:
+            if sname == "many-fields" and not T and v in ("summary", "describe", "merge-fields", "sec2gmt", "reorder", "nest", "unsparsify", "template"):
+                continue                    # quadratic in the field count on this tree (observed, finite): thorough tier only
+            add(v, "degenerate:" + sname, pre, list(a), data)
+    with ctx.timed("verb_degenerate_inproc"):
+        res2 = inproc_many(exe, [[c for c in cases[ngram:]][k::NJOBS] for k in range(NJOBS)], timeout_ms=20000)
+    res.update(res2)
+    rows, suspects = {}, []
+    for c in cases:
+        r = res.get(c["id"])
+        cl = inproc_class(r) if r else "not-run"
+        c["class"] = cl
+        ctx.count(("verb", tuple(c["args"]), c["stdin"][:64])); ctx.dist("verb:" + c["kind"])
+        if cl not in ("ok", "mlr_error"):
+            suspects.append(c)
+    # suspects are decided by the real binary (the in-process driver shares process-global state between cases)
+    def cli(c):
+        st, out, err = run_cli(ctx, c["args"], c["stdin"], timeout=30, max_out=50_000_000)
+        return c, c18_classify(st, err), st, err
+    with ctx.timed("verb_cli"):
+        with cf.ThreadPoolExecutor(min(8, NJOBS)) as ex:
+            confirmed = list(ex.map(cli, suspects[:200]))
+            sample = [c for c in cases if c["class"] in ("ok", "mlr_error")]
+            rng.shuffle(sample)
+            tied = list(ex.map(cli, sample[:6 if not T else 300]))
+    for c, k, st, err in confirmed:
+        c["class"], c["cli"] = k, (st, err)
+    if len(suspects) > 200:
+        ctx.violation({"broken": "verb part: %d in-process suspects (more than the binary re-runs 200 of): driver or build problem" % len(suspects), "part": "verb"}, found_input=False)
+    mism = [(c, k) for c, k, st, err in tied if k != c["class"]]
+    mism = [(c, k) for c, k in mism if cli(c)[1] == k]
+    bad = [c for c in cases if c["class"] not in ("ok", "mlr_error")]
+    for c in cases:
+        row = rows.setdefault(c["verb"], {"cases": 0, "ok": 0, "err": 0, "bad": []})
+        row["cases"] += 1
+        if c["class"] == "ok":
+            row["ok"] += 1
+        elif c["class"] == "mlr_error":
+            row["err"] += 1
+        else:
+            row["bad"].append(VERB_CODES.get(c["class"], 85))
+    lines = ["(* REGENERATED on every run by harness/py/checks/c18.py: `mlr help list-verbs` and, per verb, the outcomes of the argument-list grammar",
+             "   and of the degenerate record streams (see coq/C18/VerbTable.v). *)",
+             "From Miller Require Import Base.Bytes.", "Open Scope N_scope.",
+             "Definition gen_verbs : list bytes := [" + "; ".join(coq_bytes(v.encode()) for v in verbs) + "].",
+             "Definition gen_verb_rows : list (bytes * N * N * N * list N) := [",
+             ";\n".join("(%s, %d, %d, %d, [%s])" % (coq_bytes(v.encode()), r["cases"], r["ok"], r["err"], "; ".join(str(x) for x in r["bad"])) for v, r in rows.items()),
+             "]."]
+    write_if_changed(GEN / "Gen_VerbOutcomes.v", "\n".join(lines) + "\n")
+    tally = {}
+    for c in cases:
+        tally.setdefault(c["kind"], {}).setdefault(c["class"], 0)
+        tally[c["kind"]][c["class"]] += 1
+    ctx.cov["verb_table"] = {"verbs": len(verbs), "cases": len(cases), "grammar_cases": ngram, "degenerate_cases": len(cases) - ngram, "classes_by_kind": tally,
+                             "flags_found_in_usage_texts": sum(len(f) for f in flags.values()), "verbs_without_default_arguments": nodefault,
+                             "default_arguments": {v: " ".join(a) for v, a in defaults.items()}, "suspects_inproc": len(suspects),
+                             "cli_sample": {"runs": len(tied), "class_mismatches_inproc_vs_binary": len(mism)}, "many_fields": NF}
+    ctx.cov["evaluations"] += len(cases)
+    for c, k in mism[:3]:
+        ctx.violation({"broken": "in-process driver and mlr binary classify differently (verb part)", "args": c["args"], "stdin_hex": c["stdin"][:400].hex(),
+                       "inproc": c["class"], "binary": k, "part": "verb"}, found_input=False)
+    seen = set()
+    for c in bad:
+        st, err = c.get("cli", ("?", b""))
+        where = re.search(rb"pkg/([\w/-]+)/([\w.-]+)\.go:(\d+)", err)
+        cls = "verb-%s-%s-%s" % (c["class"], c["verb"], where.group(2).decode() if where else c["kind"].split(":")[-1])
+        if cls in seen:
+            continue
+        seen.add(cls)
+        ctx.violation({"class": cls, "part": "verb", "broken": "C18_verb_table_no_panic_or_hang", "args": c["args"], "verb": c["verb"], "kind": c["kind"],
+                       "input": "mlr %s  < stdin" % " ".join(c["args"])[:400], "stdin_hex": c["stdin"].hex() if len(c["stdin"]) <= 2000 else None,
+                       "stdin_head_hex": c["stdin"][:100].hex(), "observed": "%s exit=%s %s" % (c["class"], st, err.decode("utf-8", "replace")[:500]),
+                       "expected": "output, or a message on stderr with a non-zero exit"})
+    return bad
+
+
+# ---------------------------------------------------------------------------------------------------------------
+# regression probes: the witnesses of the repaired C18 findings (KNOWN_FINDINGS.txt `fixed:` lines) stay repaired
+# ---------------------------------------------------------------------------------------------------------------
+PROBES = [
+    (["-n", "put", "end{print append([], @nosuch)}"], b""), (["-n", "put", "end{print concat(1, @nosuch)}"], b""), (["-n", "put", "end{print fmtnum([1,2], @nosuch)}"], b""),
+    (["-n", "put", "func f(a) { return a } end { print concat(1, f); print append([], f); print {\"a\":f} }"], b""), (["-n", "put", "end{print [1,@nosuch]}"], b""),
+    (["--ojson", "put", "$y=[1,@nosuch]; $z=fmtifnum({\"a\":1},@nosuch)"], b"a=1\n"),
+    (["-n", "put", "end{print variance([200,-1,\"x\",[1]]); print kurtosis({\"a\":\"x\"}); print meaneb([\"\"]); print skewness([{}]); print stddev([\"abc\"])}"], b""),
+    (["--igen", "--gen-start", "9223372036854775806", "--gen-stop", "9223372036854775807", "cat"], b""), (["--igen", "--gen-start", "1", "--gen-stop", "3", "--gen-step", "1e-30", "cat"], b""),
+    (["--igen", "--gen-start", "1", "--gen-stop", "3", "--gen-step", "0", "cat"], b""), (["--igen", "--gen-start", "-9223372036854775807", "--gen-stop", "-9223372036854775808", "--gen-step", "-1", "cat"], b""),
+    (["--igen", "--gen-start", "NaN", "--gen-stop", "3", "cat"], b""), (["--igen", "--gen-start", "-Inf", "--gen-stop", "3", "cat"], b""),
+    (["seqgen", "--start", "9223372036854775806", "--stop", "9223372036854775807"], b""), (["seqgen", "--start", "1e20", "--stop", "1e21"], b""),
+    (["seqgen", "--start", "1", "--stop", "3", "--step", "1e-30"], b""), (["seqgen", "--start", "9223372036854775806", "--stop", "1e19"], b""),
+    (["head", "-n"], b"a=1\n"), (["bar", "--lo"], b"a=1\n"), (["cat", ""], b"a=1\n"), (["sec2gmt", ""], b"a=1\n"), (["sec2gmtdate", ""], b"a=1\n"), (["gap", "-n", "0"], b"a=1\na=2\n"),
+    (["split", "-n", "0"], b"a=1\na=2\n"), (["split", "-m", "0"], b"a=1\na=2\n"), (["lecat", ""], b""), (["termcvt", ""], b""), ([""], b""), (["cat", "then", ""], b"a=1\n"),
+    (["--ijson", "--ojsonl", "cat"], b"[" * 20000), (["-n", "put", 'end{s="[";for(i=0;i<15;i+=1){s=s.s} print json_decode(s)}'], b""),
+    (["--ipprint", "--fixed", "abc", "cat"], b"a b\n1 2\n"), (["--ipprint", "--fw", "", "cat"], b"a b\n1 2\n"), (["--mload", "a.mlr", "cat"], b"a=1\n"), (["--mload", ""], b""), (["--mfrom", "x"], b""),
+    (["--ixtab", "--ips", "", "cat"], b"a 1\nb 2\n"), (["--ixtab", "--ifs", "", "cat"], b"a 1\n"),
+    (["--ipprint", "--barred-input", "--implicit-csv-header", "cat"], b"no bars\n| 1 |\n"), (["--imd", "--implicit-csv-header", "cat"], b"x\n"),
+    (["-n", "put", "end{print percentile([1,2,3,4,5], 9223372036854775807, {\"interpolate_linearly\":true}); print median([], {\"output_array_not_map\":true}); print leftpad(5,10,\"\"); "
+      "print invqnorm(1e300*1e300 - 1e300*1e300); print strptime(\"abc\",\"Asia/Istanbul\"); print 1 ./ 0; print madd(5,3,0); print 1e400}"], b""),
+]
+
+
+def probes_part(ctx, exe=None):
+    def go(p):
+        st, out, err = run_cli(ctx, p[0], p[1], timeout=20, max_out=5_000_000)
+        return p, c18_classify(st, err), st, len(out), err
+    with ctx.timed("regression_probes"):
+        todo = list(PROBES)
+        results = []
+        if exe and ctx.tier == "quick":
+            # in-process first (a process start costs 1-2 s); whatever is not plainly fine there is decided by the real binary
+            reqs = [{"id": i, "args": p[0], "stdin": p[1]} for i, p in enumerate(PROBES)]
+            res = inproc_many(exe, [g for g in (reqs[k::NJOBS] for k in range(NJOBS)) if g], timeout_ms=8000)
+            todo = []
+            for i, p in enumerate(PROBES):
+                r = res.get(i)
+                k = inproc_class(r) if r else "not-run"
+                if k in ("ok", "mlr_error"):
+                    results.append((p, k, r.get("code"), r.get("out_len", 0), r["stderr"]))
+                else:
+                    todo.append(p)
+            todo += PROBES[:2]
+        with cf.ThreadPoolExecutor(min(8, NJOBS)) as ex:
+            results += list(ex.map(go, todo))
+    tally = {}
+    for (args, data), k, st, nout, err in results:
+        ctx.count(("probe", tuple(args))); ctx.dist("probe:" + k)
+        tally[k] = tally.get(k, 0) + 1
+        if k not in ("ok", "mlr_error"):
+            ctx.violation({"class": "regression-%s-%s" % (k, re.sub(r"[^a-z0-9]+", "-", " ".join(args).lower())[:50]), "part": "reader" if data or args[0].startswith("--i") else "bif",
+                           "args": args, "stdin_hex": data.hex(), "cli_program": args[2] if args[:2] == ["-n", "put"] else None,
+                           "input": "mlr " + " ".join(args), "observed": "%s exit=%s %s" % (k, st, err.decode("utf-8", "replace")[:400]),
+                           "expected": "output, or an `mlr:` error with non-zero exit (this input is the witness of a repaired finding)"})
+    ctx.cov["regression_probes"] = {"probes": len(PROBES), "classes": tally}
+
+
+# ---------------------------------------------------------------------------------------------------------------
 def run(ctx):
     ctx.cov["rule"] = ("(1) every row of the built-in function table x every tuple of 37 argument-kind representatives for arity <= 2, and of "
                        "12 (quick) / 37 (thorough) for arity 3, invoked as the callsite nodes do, outcome table regenerated and re-proved; "
@@ -1480,20 +1915,27 @@ def run_parts(ctx, exe):
     forbidden_gate(ctx, ["Base", "C18"])
     if want("bif"):
         mats = gen_bif_table(ctx, exe)
-        ok, why = check_props(ctx, "C18/Props.v", ["C18/TableProofs.vo", "C18/Harness.vo", "C18/Proofs.vo", "C18/ProofsReaders.vo"])
+        vbad = verb_part(ctx, exe)
+        ok, why = check_props(ctx, "C18/Props.v", ["C18/TableProofs.vo", "C18/VerbProofs.vo", "C18/Harness.vo", "C18/Proofs.vo", "C18/ProofsReaders.vo", "C18/ProofsBar.vo", "C18/ProofsJson.vo"])
         by_class = bif_oracle(ctx, mats)
         if not ok:
-            # a proof obligation broke: the oracle above has reported the failing tuples if the table is the reason
-            if not (by_class and isinstance(why, dict) and "TableProofs" in json.dumps(why)):
+            # a proof obligation broke: the oracles above have reported the failing tuples / verb cases if a table is the reason
+            if not ((by_class or vbad) and isinstance(why, dict) and ("TableProofs" in json.dumps(why) or "VerbProofs" in json.dumps(why))):
                 ctx.violation({"broken": why}, found_input=False)
             elif not ctx.violations and not ctx.known_reported:
                 ctx.violation({"broken": why}, found_input=False)
     else:
-        coq_make(["C18/Harness.vo", "C18/ProofsReaders.vo"])
+        if want("verb"):
+            verb_part(ctx, exe)
+        coq_make(["C18/Harness.vo", "C18/ProofsReaders.vo", "C18/ProofsBar.vo"])
+    if want("probes"):
+        probes_part(ctx, exe)
     if want("line"):
         line_reader_correspondence(ctx, exe)
     if want("classified"):
         classified_reader_correspondence(ctx, exe)
+    if want("jsonlayer"):
+        json_layer_correspondence(ctx, exe)
     if want("reader"):
         reader_part(ctx, exe)
     if want("special"):
